@@ -193,3 +193,23 @@ pub fn pick(sel: u16, len: usize) -> usize {
         ((sel as usize) * len) >> 16
     }
 }
+
+/// byte decoder for the fuzz targets
+pub fn decode_stpl(u: &mut crate::runner::FuzzInput) -> STpl {
+    let nl = 1 + u.n(2);
+    let lines = (0..nl)
+        .map(|_| {
+            (0..u.n(3))
+                .map(|_| match u.n(9) {
+                    0 | 1 | 2 => SPart::Lit((0..=u.n(4)).map(|_| u.pick(&['a', 'b', ':', '|', ' '])).collect()),
+                    3 => SPart::Sgr,
+                    4 | 5 | 6 => SPart::Msg,
+                    7 => SPart::Prefix,
+                    8 => SPart::Pos,
+                    _ => SPart::Len,
+                })
+                .collect()
+        })
+        .collect();
+    STpl { lines }
+}
